@@ -107,14 +107,14 @@ Qed.
 
 Lemma valid_axis_sound ax key kv :
   valid_axis ax key (JObj kv) = ROk None ->
-  exists rs recs, jget kv key = Some rs /\ py_iter rs = ROk recs /\ Forall good_rec recs
-                  /\ py_distinct (map rec_id recs).
+  exists recs, jget kv key = Some (JArr recs) /\ Forall good_rec recs /\ py_distinct (map rec_id recs).
 Proof.
   unfold valid_axis. intros H.
-  inv_bind H as ty Hty. inv_bind H as lo Hlo. inv_bind H as rs Hrs. inv_bind H as recs Hrecs.
+  inv_bind H as ty Hty. inv_bind H as lo Hlo. inv_bind H as rs Hrs.
   apply py_getitem_ok in Hrs. destruct Hrs as [kv' [E G]]. inversion E; subst kv'.
+  destruct rs; try discriminate.
   destruct (axis_loop_sound _ _ _ _ H) as (A & B & _).
-  exists rs, recs. auto.
+  exists l. auto.
 Qed.
 
 (* ------------------------------------------------------------------ shape *)
@@ -132,18 +132,200 @@ Proof.
   exists z, z0. reflexivity.
 Qed.
 
-Lemma count_check_sound kv key pos m a b rs :
-  jget kv (K "shape") = Some (JArr [JInt a; JInt b]) -> jget kv key = Some rs ->
+Lemma count_check_sound kv key pos m a b recs :
+  jget kv (K "shape") = Some (JArr [JInt a; JInt b]) -> jget kv key = Some (JArr recs) ->
   (pos = 0 \/ pos = 1)%nat ->
   count_check (JObj kv) key pos m = ROk [] ->
-  exists recs, py_iter rs = ROk recs /\ Z.of_nat (length recs) = (if (pos =? 0)%nat then a else b).
+  Z.of_nat (length recs) = (if (pos =? 0)%nat then a else b).
 Proof.
   intros Hs Hr Hp H. unfold count_check in H. cbn [py_in py_getitem] in H. rewrite Hr, Hs in H.
-  cbn [bind] in H. inv_bind H as n Hn.
-  destruct (py_len_iter _ _ Hn) as [recs [I L]]. exists recs. split; [exact I|].
-  destruct Hp as [-> | ->]; cbn [py_index nth_error bind Nat.eqb] in H.
-  - destruct (py_ne_nat n (JInt a)) eqn:E; [discriminate|].
-    apply py_ne_nat_false in E. simpl in E. inversion E. unfold SCALE in *. lia.
-  - destruct (py_ne_nat n (JInt b)) eqn:E; [discriminate|].
-    apply py_ne_nat_false in E. simpl in E. inversion E. unfold SCALE in *. lia.
+  cbn [bind py_len] in H.
+  destruct Hp as [-> | ->]; cbn [py_index nth_error bind] in H; cbn [Nat.eqb].
+  - destruct (py_ne_nat (length recs) (JInt a)) eqn:E; [discriminate|].
+    apply py_ne_nat_false in E. cbn [numval] in E.
+    assert (E1 : SCALE * a = SCALE * Z.of_nat (length recs)) by congruence. unfold SCALE in E1. lia.
+  - destruct (py_ne_nat (length recs) (JInt b)) eqn:E; [discriminate|].
+    apply py_ne_nat_false in E. cbn [numval] in E.
+    assert (E1 : SCALE * b = SCALE * Z.of_nat (length recs)) by congruence. unfold SCALE in E1. lia.
+Qed.
+
+(* ------------------------------------------------------------------ data *)
+Definition entry_ok (dt : etype) (a b : Z) (e : json) : Prop :=
+  exists x y v, e = JArr [JInt x; JInt y; v] /\ 0 <= x < a /\ 0 <= y < b /\ py_isinstance v dt = true.
+Definition row_ok (dt : etype) (b : Z) (r : json) : Prop :=
+  exists items, py_iter r = ROk items /\ Z.of_nat (length items) = b
+                /\ Forall (fun v => py_isinstance v dt = true) items.
+
+Lemma unpack3_ints e x y v : unpack3 e = Some (JInt x, y, v) -> e = JArr [JInt x; y; v].
+Proof.
+  unfold unpack3. destruct (py_iter e) as [l|] eqn:E; [|discriminate].
+  destruct l as [|p [|q [|r [|? ?]]]]; try discriminate. intros H. inversion H; subst.
+  destruct (py_iter_ints _ _ _ E) as [l ->]. simpl in E. congruence.
+Qed.
+
+Lemma sparse_loop_sound dt a b data : forall idx,
+  sparse_loop dt (SCALE * a - SCALE) (SCALE * b - SCALE) idx data = None -> Forall (entry_ok dt a b) data.
+Proof.
+  induction data as [|e t IH]; intros idx H; [constructor|].
+  cbn [sparse_loop] in H. destruct (unpack3 e) as [[[x y] v]|] eqn:U; [|discriminate].
+  destruct x; try discriminate. destruct y; try discriminate.
+  destruct (py_isinstance v dt) eqn:Iv; cbn [negb] in H; [|discriminate].
+  destruct ((z <? 0) || (SCALE * a - SCALE <? SCALE * z)) eqn:Ex; [discriminate|].
+  destruct ((z0 <? 0) || (SCALE * b - SCALE <? SCALE * z0)) eqn:Ey; [discriminate|].
+  apply orb_false_iff in Ex. destruct Ex as [X1 X2]. apply orb_false_iff in Ey. destruct Ey as [Y1 Y2].
+  apply Z.ltb_ge in X1, X2, Y1, Y2. unfold SCALE in *.
+  constructor; [|exact (IH _ H)].
+  exists z, z0, v. split; [apply unpack3_ints; exact U|]. repeat split; try lia. exact Iv.
+Qed.
+
+Lemma element_dtype_sound kv dt :
+  element_dtype (JObj kv) = ROk dt ->
+  exists met, jget kv (K "matrix_element_type") = Some (JStr met) /\ In (met, dt) ELEMENT_TYPES.
+Proof.
+  unfold element_dtype. intros H. inv_bind H as m Hm.
+  apply py_getitem_ok in Hm. destruct Hm as [kv' [E G]]. inversion E; subst kv'.
+  destruct (py_hashable m); cbn [negb] in H; [|discriminate].
+  destruct (find (fun p => py_eq m (JStr (fst p))) ELEMENT_TYPES) as [[k t]|] eqn:F; [|discriminate].
+  inversion H; subst. apply find_some in F. destruct F as [Hin He]. cbn [fst] in He.
+  assert (m = JStr k).
+  { unfold py_eq in He. destruct m; simpl in He; try discriminate.
+    apply list_eqb_Z_eq in He. congruence. }
+  subst. exists k. auto.
+Qed.
+
+Lemma dense_loop_sound dt nc rows :
+  dense_loop dt nc rows = ROk None ->
+  Forall (fun r => exists items, py_iter r = ROk items /\ py_ne_nat (length items) nc = false
+                                 /\ Forall (fun v => py_isinstance v dt = true) items) rows.
+Proof.
+  induction rows as [|r t IH]; intros H; [constructor|].
+  cbn [dense_loop] in H. inv_bind H as n Hn.
+  destruct (py_ne_nat n nc) eqn:Ne; [discriminate|].
+  inv_bind H as items Hi. destruct items as [|i0 it]; [discriminate|].
+  destruct (forallb (fun v => py_isinstance v dt) (i0 :: it)) eqn:Fa; [|discriminate].
+  constructor; [|exact (IH H)].
+  exists (i0 :: it). split; [exact Hi|]. split.
+  - apply py_iter_len in Hi. rewrite Hi in Hn. inversion Hn; subst. exact Ne.
+  - apply Forall_forall. rewrite forallb_forall in Fa. exact Fa.
+Qed.
+
+Lemma py_lower_JStr v l : py_lower v = ROk l -> exists s, v = JStr s /\ l = map lower_char s.
+Proof. destruct v; simpl; try discriminate. intros H; inversion H. eauto. Qed.
+
+Lemma valid_data_sound kv a b :
+  jget kv (K "shape") = Some (JArr [JInt a; JInt b]) ->
+  valid_data (JObj kv) = ROk None ->
+  exists entries mt met dt,
+    jget kv (K "data") = Some (JArr entries) /\ jget kv (K "matrix_type") = Some (JStr mt)
+    /\ jget kv (K "matrix_element_type") = Some (JStr met) /\ In (met, dt) ELEMENT_TYPES
+    /\ ((map lower_char mt = K "sparse" /\ Forall (entry_ok dt a b) entries)
+        \/ (map lower_char mt = K "dense" /\ Z.of_nat (length entries) = a /\ Forall (row_ok dt b) entries)).
+Proof.
+  intros Hs H. unfold valid_data in H.
+  inv_bind H as d Hd. apply py_getitem_ok in Hd. destruct Hd as [kv' [E Gd]]. inversion E; subst kv'.
+  destruct d; cbn [negb] in H; try discriminate.
+  inv_bind H as mt Hmt. apply py_getitem_ok in Hmt. destruct Hmt as [kv' [E' Gmt]]. inversion E'; subst kv'.
+  inv_bind H as lo Hlo. apply py_lower_JStr in Hlo. destruct Hlo as [s [-> ->]].
+  destruct (str_eqb (map lower_char s) (K "sparse")) eqn:Sp.
+  - apply list_eqb_Z_eq in Sp. unfold valid_sparse_data in H.
+    inv_bind H as dt Hdt. destruct (element_dtype_sound _ _ Hdt) as [met [Gm Hin]].
+    cbn [py_getitem] in H. rewrite Hs, Gd in H. cbn [bind py_unpack2 py_iter fst snd py_sub1 numval] in H.
+    inversion H as [H1].
+    exists l, s, met, dt. repeat split; try assumption. left. split; [exact Sp|].
+    replace (SCALE * a - SCALE) with (SCALE * a - SCALE) in H1 by reflexivity.
+    eapply sparse_loop_sound. exact H1.
+  - destruct (str_eqb (map lower_char s) (K "dense")) eqn:De; [|discriminate].
+    apply list_eqb_Z_eq in De. unfold valid_dense_data in H.
+    inv_bind H as dt Hdt. destruct (element_dtype_sound _ _ Hdt) as [met [Gm Hin]].
+    cbn [py_getitem] in H. rewrite Hs, Gd in H. cbn [bind py_unpack2 py_iter fst snd] in H.
+    inv_bind H as st Hst. destruct st as [m|]; [discriminate|].
+    cbn [py_len bind] in H. destruct (py_ne_nat (length l) (JInt a)) eqn:Ne; [discriminate|].
+    exists l, s, met, dt. repeat split; try assumption. right. split; [exact De|]. split.
+    + apply py_ne_nat_false in Ne. cbn [numval] in Ne.
+      assert (E1 : SCALE * a = SCALE * Z.of_nat (length l)) by congruence. unfold SCALE in E1. lia.
+    + apply dense_loop_sound in Hst. eapply Forall_impl; [|exact Hst].
+      intros r (items & I & N & F). exists items. split; [exact I|]. split; [|exact F].
+      apply py_ne_nat_false in N. cbn [numval] in N.
+      assert (E1 : SCALE * b = SCALE * Z.of_nat (length items)) by congruence. unfold SCALE in E1. lia.
+Qed.
+
+Lemma valid_matrix_type_sound kv :
+  valid_matrix_type (JObj kv) = ROk None ->
+  jget kv (K "matrix_type") = Some (JStr (K "sparse")) \/ jget kv (K "matrix_type") = Some (JStr (K "dense")).
+Proof.
+  unfold valid_matrix_type. intros H. inv_bind H as mt Hmt.
+  apply py_getitem_ok in Hmt. destruct Hmt as [kv' [E G]]. inversion E; subst kv'.
+  destruct (py_hashable mt); cbn [negb] in H; [|discriminate].
+  destruct (existsb (fun t => py_eq mt (JStr t)) MATRIX_TYPES) eqn:Ex; [|discriminate].
+  apply existsb_exists in Ex. destruct Ex as [t [Hin He]].
+  assert (mt = JStr t).
+  { unfold py_eq in He. destruct mt; simpl in He; try discriminate. apply list_eqb_Z_eq in He. congruence. }
+  subst. destruct Hin as [<-|[<-|[]]]; auto.
+Qed.
+
+(* ------------------------------------------------------------------ the loop over required keys *)
+Lemma run_required_sound j l : forall idx,
+  run_required j l idx = ROk [] -> Forall (fun km => py_in (fst km) j = ROk true /\ snd km j = ROk None) l.
+Proof.
+  induction l as [|[k m] t IH]; intros idx H; [constructor|].
+  cbn [run_required] in H. inv_bind H as b Hb. destruct b; cbn [negb] in H.
+  - inv_bind H as s Hs. inv_bind H as rest Hrest. destruct s as [x|]; [discriminate|].
+    inversion H; subst. constructor; [split; assumption|]. exact (IH _ Hrest).
+  - inv_bind H as rest Hrest. discriminate.
+Qed.
+
+(* what a "valid" verdict on a JSON document guarantees *)
+Definition valid_doc (j : json) : Prop :=
+  exists kv a b rrecs crecs entries mt met dt,
+    j = JObj kv
+    /\ Forall (fun k => jget kv k <> None) (map fst REQUIRED)
+    /\ jget kv (K "shape") = Some (JArr [JInt a; JInt b])
+    /\ jget kv (K "rows") = Some (JArr rrecs) /\ Z.of_nat (length rrecs) = a
+    /\ jget kv (K "columns") = Some (JArr crecs) /\ Z.of_nat (length crecs) = b
+    /\ Forall good_rec rrecs /\ Forall good_rec crecs
+    /\ py_distinct (map rec_id rrecs) /\ py_distinct (map rec_id crecs)
+    /\ jget kv (K "data") = Some (JArr entries)
+    /\ jget kv (K "matrix_type") = Some (JStr mt)
+    /\ jget kv (K "matrix_element_type") = Some (JStr met) /\ In (met, dt) ELEMENT_TYPES
+    /\ ((mt = K "sparse" /\ Forall (entry_ok dt a b) entries)
+        \/ (mt = K "dense" /\ Z.of_nat (length entries) = a /\ Forall (row_ok dt b) entries)).
+
+Theorem valid_sound_json j : validate_json j = true -> valid_doc j.
+Proof.
+  unfold validate_json. destruct (validate_json_report j) as [[|m ms]|] eqn:R; try discriminate. intros _.
+  unfold validate_json_report in R. inv_bind R as ra Hra. inv_bind R as rb Hrb.
+  destruct ra; [|discriminate]. destruct rb; [|discriminate].
+  apply run_required_sound in Hra.
+  assert (G : forall k m, In (k, m) REQUIRED -> py_in k j = ROk true /\ m j = ROk None).
+  { intros k m Hin. rewrite Forall_forall in Hra. exact (Hra (k, m) Hin). }
+  destruct (G (K "format") valid_format) as [_ Vf]; [cbn; tauto|].
+  unfold valid_format in Vf. inv_bind Vf as v0 Hv0. apply py_getitem_ok in Hv0. destruct Hv0 as [kv [-> _]].
+  destruct (G (K "shape") valid_shape) as [_ Vs]; [cbn; tauto|].
+  destruct (valid_shape_sound _ Vs) as [a [b Hs]].
+  destruct (G (K "rows") valid_rows) as [_ Vr]; [cbn; tauto|].
+  destruct (valid_axis_sound _ _ _ Vr) as (rrecs & Gr & Fr & Dr).
+  destruct (G (K "columns") valid_columns) as [_ Vc]; [cbn; tauto|].
+  destruct (valid_axis_sound _ _ _ Vc) as (crecs & Gc & Fc & Dc).
+  destruct (G (K "data") valid_data) as [_ Vd]; [cbn; tauto|].
+  destruct (valid_data_sound _ _ _ Hs Vd) as (entries & mt & met & dt & Gd & Gmt & Gme & Hin & Hdata).
+  destruct (G (K "matrix_type") valid_matrix_type) as [_ Vm]; [cbn; tauto|].
+  unfold shape_checks in Hrb. cbn [py_in] in Hrb. rewrite Hs in Hrb. cbn [bind] in Hrb.
+  inv_bind Hrb as c1 Hc1. inv_bind Hrb as c2 Hc2.
+  destruct c1; [|discriminate]. destruct c2; [|discriminate].
+  pose proof (count_check_sound _ _ _ _ _ _ _ Hs Gr (or_introl eq_refl) Hc1) as Lr.
+  pose proof (count_check_sound _ _ _ _ _ _ _ Hs Gc (or_intror eq_refl) Hc2) as Lc.
+  cbn [Nat.eqb] in Lr, Lc.
+  assert (Mt : mt = K "sparse" \/ mt = K "dense").
+  { destruct (valid_matrix_type_sound _ Vm) as [E|E]; rewrite Gmt in E; inversion E; auto. }
+  exists kv, a, b, rrecs, crecs, entries, mt, met, dt.
+  split; [reflexivity|]. split.
+  { apply Forall_forall. intros k Hk. apply in_map_iff in Hk. destruct Hk as [[k' m] [<- Hin']].
+    destruct (G _ _ Hin') as [Pi _]. cbn [py_in fst] in Pi.
+    cbn [fst]. intros En. rewrite En in Pi. discriminate. }
+  repeat (split; [assumption|]).
+  destruct Hdata as [[Lo Fa]|[Lo [Le Fa]]]; destruct Mt as [->| ->].
+  - left. auto.
+  - exfalso. revert Lo. vm_compute. discriminate.
+  - exfalso. revert Lo. vm_compute. discriminate.
+  - right. auto.
 Qed.
